@@ -6,4 +6,4 @@ for f in glob.glob('/verif/out/%s/replay/*.json' % sys.argv[1]):
     d = json.load(open(f))['key']
     c[tuple((k, re.sub(r'\d+', 'N', str(v))[:120]) for k, v in sorted(d.items()))] += 1
 for k, v in c.most_common(int(sys.argv[2]) if len(sys.argv) > 2 else 25):
-    print(v, dict(k))
+    print(v, ' '.join('%s=%s' % kv for kv in k)[:260])
